@@ -109,7 +109,12 @@ class CompilationUnit(EvaluationContext):
                 node=node)
 
         for param_type, arg in zip(routine.params.values(), node.args):
-            if isinstance(arg, Lvalue):
+            is_func_call = (
+                isinstance(arg, Lvalue) and
+                not arg.dotted_vars and
+                self.get_routine(arg.base_var, 'function') is not None
+            )
+            if isinstance(arg, Lvalue) and not is_func_call:
                 # argument type must match exactly for lvalues,
                 # because pass is by reference
                 if arg.type != param_type:
